@@ -20,10 +20,17 @@
 #define VH_OP_TIMEOUT 60
 #endif
 
-#define VH_MAX_TOK 4096
+#define VH_MAX_TOK 32768
 
 static inline long long vh_ll(const char *s) { return strtoll(s, NULL, 10); }
 static inline unsigned long long vh_ull(const char *s) { return strtoull(s, NULL, 10); }
+
+/* A harness whose state cannot be trusted after the current case (a scheduled run that ended with its
+ * threads parked in the middle of library calls: step limit, deadlock, diverged replay) asks for a new
+ * process: the case's output is complete, the process exits with 98 and vlib.run_cases starts the
+ * remaining cases in a fresh one (instead of a crash later on that is blamed on another case). */
+static int vh_restart_requested;
+static inline void vh_request_restart(void) { vh_restart_requested = 1; }
 
 #define VH_MAIN() \
 int main(void) { \
@@ -44,6 +51,7 @@ int main(void) { \
 		vh_op(argc_, argv_); \
 		alarm(0); \
 		fflush(stdout); \
+		if (vh_restart_requested) _exit(98); \
 	} \
 	alarm(VH_OP_TIMEOUT); vh_reset(); alarm(0); free(line); return 0; }
 
